@@ -12,7 +12,7 @@ import (
 func H_C08_total() {
 	id := "C08.total"
 	nd.UFWindow(24)                 // the slash changes share totals; relating values before/after needs monotonicity
-	dstState := nd.Choice("dst", 2) // destination position of the pending redelegation: 0 present (any size), 1 absent
+	dstState := nd.Choice("dst", 3) // destination position of the pending redelegation: 0 present (any size), 1 absent, 2: absent and the alliance of its denom was deleted since
 	pk := nd.Choice("pending", 3)
 	ps := []Pos{{0, 0, 0}, {1, 1, 0}}
 	if dstState == 0 {
@@ -23,10 +23,15 @@ func H_C08_total() {
 	pendingUnbondings(st, pk)
 	c1 := nd.TimeRange("rc1", TLo, THi)
 	r1 := nd.IntRange("r1", "1", Pow30)
-	InstallRedelegation(e, 0, 0, 1, 0, r1, c1)
+	if dstState == 2 {
+		// everybody withdrew that denom and governance deleted the (empty) alliance while the entry is pending
+		InstallRedelegation(e, 0, 0, 1, 1, r1, c1)
+	} else {
+		InstallRedelegation(e, 0, 0, 1, 0, r1, c1)
+	}
 	f := nd.DecRange("fraction", "0.000000000000000001", "1")
 	pendingRedel := !c1.Before(st.T0)
-	if pendingRedel {
+	if pendingRedel && dstState != 2 {
 		if dstState == 1 {
 			nd.Tag("redelegation-dst-gone")
 		} else {
